@@ -82,6 +82,45 @@ pub enum Sept {
     M = 127,
 }
 
+/// 8-bit codec whose bit patterns are NOT the ASCII codes of the display characters
+#[derive(Clone, Copy, Debug, PartialEq, Eq, Hash, PartialOrd, Ord)]
+#[repr(u8)]
+pub enum Oct {
+    Plus = 1,
+    Minus = 2,
+    Both = 3,
+    Unknown = 0x80,
+    A = 0xC1,
+    Z = 0xFF,
+}
+
+const OCT: [(Oct, u8); 6] = [(Oct::Plus, b'+'), (Oct::Minus, b'-'), (Oct::Both, b'B'), (Oct::Unknown, b'?'), (Oct::A, b'a'), (Oct::Z, b'Z')];
+
+impl Codec for Oct {
+    const BITS: u8 = 8;
+    fn unsafe_from_bits(b: u8) -> Self {
+        Self::try_from_bits(b).unwrap_or_else(|| panic!("Unrecognised bit pattern: {b:08b}"))
+    }
+    fn try_from_bits(b: u8) -> Option<Self> {
+        OCT.iter().find(|s| s.0 as u8 == b).map(|s| s.0)
+    }
+    fn unsafe_from_ascii(c: u8) -> Self {
+        Self::try_from_ascii(c).unwrap_or_else(|| panic!("Unrecognised character: {c:#04X?}"))
+    }
+    fn try_from_ascii(c: u8) -> Option<Self> {
+        OCT.iter().find(|s| s.1 == c).map(|s| s.0)
+    }
+    fn to_char(self) -> char {
+        OCT.iter().find(|s| s.0 == self).unwrap().1 as char
+    }
+    fn to_bits(self) -> u8 {
+        self as u8
+    }
+    fn items() -> impl Iterator<Item = Self> {
+        OCT.iter().map(|s| s.0).collect::<Vec<_>>().into_iter()
+    }
+}
+
 const SEPT: [(Sept, u8); 12] = [
     (Sept::Stop, b'*'),
     (Sept::A, b'A'),
